@@ -1593,6 +1593,11 @@ func (stmt *UpsertIntoStmt) execAt(ctx context.Context, tx *SQLTx, params map[st
 						}
 					}
 				}
+
+				// constraints must hold on the resulting row, not only on the values attempted to be inserted
+				if err := checkConstraints(tx, table.checkConstraints, r, table.name); err != nil {
+					return nil, err
+				}
 			}
 		}
 
